@@ -16,7 +16,9 @@ Phase == <<"111", "112", "113">>
 Mult == <<"1", "2", "3">>
 
 FirstLit(mask) == CHOOSE i \in (1..4) \ mask : \A j \in (1..4) \ mask : i <= j
-KeyOf(mask, rev, miss) == LET k0 == [i \in 1..4 |-> IF i \in mask THEN "X" ELSE ABCD[i]]
+\* atom typings of the four atoms: all different, palindromic, a repeated type
+Typings == << ABCD, <<"A", "B", "B", "A">>, <<"A", "A", "B", "C">> >>
+KeyOf(ty, mask, rev, miss) == LET k0 == [i \in 1..4 |-> IF i \in mask THEN "X" ELSE Typings[ty][i]]
                               k1 == IF miss THEN [k0 EXCEPT ![FirstLit(mask)] = "E"] ELSE k0
                           IN IF rev THEN Rev(k1) ELSE k1
 MainTerm(k, df) == IF df = "tbl" THEN <<"9", MacroNames[k]>> ELSE <<"9", Phase[k], "1.5", Mult[k]>>
@@ -24,22 +26,23 @@ MainTerm(k, df) == IF df = "tbl" THEN <<"9", MacroNames[k]>> ELSE <<"9", Phase[k
 DihTop(p) ==
   LET nt   == p.ti[1]
       ni   == p.ti[2]
-      main == [k \in 1..nt |-> [key |-> KeyOf(p.m1, p.r1, p.miss), par |-> MainTerm(k, p.df)]]
-      cmp  == IF p.comp THEN << [key |-> KeyOf(p.m2, FALSE, FALSE), par |-> <<"9", "220", "2.5", "1">>] >> ELSE <<>>
+      main == [k \in 1..nt |-> [key |-> KeyOf(p.ty, p.m1, p.r1, p.miss), par |-> MainTerm(k, p.df)]]
+      cmp  == IF p.comp THEN << [key |-> KeyOf(p.ty, p.m2, FALSE, FALSE), par |-> <<"9", "220", "2.5", "1">>] >> ELSE <<>>
       tbl  == IF p.cfirst THEN cmp \o main ELSE main \o cmp
   IN [opls |-> FALSE, btype |-> <<>>,
       defs |-> IF p.df = "tbl" THEN [k \in 1..nt |-> [name |-> MacroNames[k], toks |-> <<Phase[k], "1.5", Mult[k]>>]] ELSE <<>>,
       tables |-> [EmptyK EXCEPT !["dihedrals"] = tbl],
-      mols |-> << [name |-> "M", atypes |-> ABCD,
+      mols |-> << [name |-> "M", atypes |-> Typings[p.ty],
                    inter |-> [EmptyK EXCEPT !["dihedrals"] =
                                 << [atoms |-> IF p.lr THEN <<4, 3, 2, 1>> ELSE <<1, 2, 3, 4>>, par |-> <<"9">>] >>]] >>,
       molecules |-> IF ni = 3 THEN << [name |-> "M", n |-> 2], [name |-> "M", n |-> 1] >> ELSE << [name |-> "M", n |-> ni] >>]
 
 DParams == {p \in [m1 : Masks, r1 : BOOLEAN, miss : MissSet, comp : BOOLEAN, m2 : Masks, cfirst : BOOLEAN, lr : BOOLEAN,
-                   ti : TISet, df : DefSet] :
+                   ti : TISet, df : DefSet, ty : 1..Len(Typings)] :
               /\ (p.miss => p.m1 # 1..4)
               /\ (p.comp => Cardinality(p.m2) # Cardinality(p.m1))
               /\ (~p.comp => p.m2 = {} /\ ~p.cfirst)
+              /\ (p.ty # 1 => p.df = "none" /\ ~p.miss /\ (Stratified => p.ti = <<2, 2>> /\ ~p.cfirst))
               /\ (Stratified => /\ (p.df = "tbl" => p.ti = <<2, 2>> /\ ~p.miss /\ ~p.cfirst)
                                 /\ (p.miss => p.ti = <<1, 1>>)
                                 /\ (p.cfirst /\ ~p.miss => p.ti = <<2, 2>>))}
@@ -121,7 +124,7 @@ Alts(t) == LET e == Expected(t, NoDev) IN
              SelectSeq([i \in 1..Len(Sigs) |-> [sig |-> Sigs[i].sig, res |-> Expected(t, Sigs[i].d)]], LAMBDA a : a.res # e)
 ExportInv == Final => PrintT(<<"CASE", ToJson([top |-> top, exp |-> Expected(top, NoDev), alt |-> Alts(top)])>>)
 \* small instances of the sensitivity runs
-DihSmall == {DihTop(p) : p \in {q \in DParams : q.ti = <<2, 2>> /\ ~q.miss /\ ~q.cfirst /\ q.df = "none"}}
-DihSmallTbl == {DihTop(p) : p \in {q \in DParams : q.ti = <<2, 2>> /\ ~q.miss /\ ~q.cfirst /\ (q.df = "tbl" \/ ~q.comp) /\ (q.comp => q.m2 \in {{}, {1}, {1, 2, 3, 4}})}}
+DihSmall == {DihTop(p) : p \in {q \in DParams : q.ti = <<2, 2>> /\ ~q.miss /\ ~q.cfirst /\ q.df = "none" /\ q.ty = 1}}
+DihSmallTbl == {DihTop(p) : p \in {q \in DParams : q.ty = 1 /\ q.ti = <<2, 2>> /\ ~q.miss /\ ~q.cfirst /\ (q.df = "tbl" \/ ~q.comp) /\ (q.comp => q.m2 \in {{}, {1}, {1, 2, 3, 4}})}}
 PlainSmall == PlainFam \cup {MacroTop(p) : p \in {q \in MacroParams : q.b1 = "mac" /\ q.ni = 2}}
 =============================================================================
